@@ -1,5 +1,6 @@
 import TlsProofs.AuthTicket
 import TlsProofs.AuthSrp
+import TlsProofs.AuthSrcSpec
 /-
   C05 — peer credentials are recorded only after proof of possession.
 
@@ -38,6 +39,105 @@ theorem gen_hashId_repr (h : HashName) : hashRepr (hashId h) = some h := by
 theorem gen_eddsa_ids : schemeRepr 8 7 = some { name := "ed25519", fam := .eddsa, pad := none, hash := .intrinsic } ∧
     schemeRepr 8 8 = some { name := "ed448", fam := .eddsa, pad := none, hash := .intrinsic } := by
   constructor <;> rfl
+
+/-! ### the source, as extracted from its AST on every run (TlsModel/Gen/AuthSrc.lean), has the structure the model assumes
+
+  Event lists are in source order per function (see translate/gen_auth.py for the vocabulary).
+  Failure actions: alert n ↦ n (47 illegal_parameter, 51 decrypt_error, 80 internal_error), raise ↦ 1000.
+  `schemeCheck (10·n + k)`: k membership tests `x not in list` guarding `_sendError n` (10001: raise).
+  Sub-handshake indices in `call`: 0 _serverCertKeyExchange, 1 _serverFinished, 2 _clientKeyExchange,
+  3 _clientFinished, 4 _getFinished, 5 _sendFinished.  `record k`: bit 1 srpUsername, 2 clientCertChain,
+  4 serverCertChain.  An unrecognised shape is an `odd` event or a `problems` entry and falsifies these. -/
+
+open Src in
+/-- **Every place where a peer identity is recorded is dominated by the verification steps that
+    `identity_implies_proof` assumes**, in the order the model runs them:
+    * TLS 1.3 server: admission of the CertificateVerify scheme (two membership tests → illegal_parameter),
+      signed bytes with the `client` tag, signature check → decrypt_error, Finished → decrypt_error,
+      only then `session.create` with the client chain; a ticket's chain is remembered only AFTER every
+      `continue` of the PSK loop and after the PSK was selected, and the binder check (→ illegal_parameter)
+      follows before anything is recorded;
+    * TLS 1.3 client: scheme advertised, `server` tag, certificate check, delegated-credential check,
+      scheme offered and fitting the certificate, signature → exception (mapped to decrypt_error), Finished;
+    * TLS ≤ 1.2 server: admission against the certificate-filtered list, certificate check, signature →
+      decrypt_error before the chain is handed back; the helper records it, then runs `_serverFinished`
+      (client Finished checked in `_getFinished` → decrypt_error BEFORE `_sendFinished` may send a ticket),
+      then caches the SAME session object, then `_handshakeDone`;
+    * TLS ≤ 1.2 client: certificate check, `verifyServerKeyExchange` with both exceptions mapped to alerts,
+      Finished exchange before `session.create`;
+    * PHA: both membership tests, `client` tag, signature → decrypt_error, Finished → decrypt_error, and
+      the assignment to `session.clientCertChain` is the last event;
+    * SRP: `A % N == 0` / `B % N == 0` raise, mapped to illegal_parameter; binder compared on all bytes;
+      every ServerKeyExchange / delegated-credential verifier raises on a False result. -/
+theorem gen_identity_recorded_only_after_proof :
+    Src.problems = [] ∧ Src.allFunctions.all Src.noOdd = true ∧
+    -- TLS 1.3 server
+    Src.subseq [.sigList 1, .schemeCheck 472, .calcBytes 1, .sigVerify 51, .finCheck 51, .record 6]
+      Src.f_serverTLS13Handshake = true ∧
+    Src.subseq [.setResuming 0, .skip 0, .skip 0, .skip 0, .skip 0, .selectPsk 0, .setResuming 3, .recordResumed 0,
+      .binderCheck 47, .finCheck 51, .useResumed 0, .record 6] Src.f_serverTLS13Handshake = true ∧
+    Src.noneAfter Src.isSkip Src.isRecordResumed Src.f_serverTLS13Handshake = true ∧
+    -- TLS 1.3 client
+    Src.subseq [.setResuming 0, .setResuming 1, .schemeCheck 471, .calcBytes 2, .certCheck 0, .dcVerify 1000, .sigList 1,
+      .schemeCheck 472, .sigVerify 1000, .finCheck 1000, .record 6] Src.f_clientTLS13Handshake = true ∧
+    -- TLS ≤ 1.2 server
+    Src.subseq [.kexProcess 47, .sigList 1, .schemeCheck 471, .calcBytes 0, .certCheck 0, .sigVerify 51, .yieldChain 0]
+      Src.f_serverCertKeyExchange = true ∧
+    Src.subseq [.call 0, .record 7, .call 1, .cacheInsert 1, .done 0] Src.f_handshakeServerAsyncHelper = true ∧
+    Src.f_serverFinished = [.call 4, .call 5] ∧ Src.f_getFinished = [.finCheck 51] ∧
+    -- TLS ≤ 1.2 client
+    Src.subseq [.certCheck 0, .sigList 1, .skeVerify 47051, .yieldChain 0] Src.f_clientKeyExchange = true ∧
+    Src.subseq [.call 2, .call 3, .record 7, .done 0] Src.f_handshakeClientAsyncHelper = true ∧
+    Src.f_clientFinished = [.call 5, .call 4] ∧
+    -- post-handshake authentication
+    Src.f_handle_srv_pha = [.schemeCheck 471, .sigList 3, .schemeCheck 471, .calcBytes 1, .sigVerify 51, .finCheck 51, .record 2] ∧
+    -- SRP, binder, ServerKeyExchange and delegated-credential verifiers
+    Src.f_serverSRPKeyExchange = [.kexProcess 47, .yieldChain 0] ∧
+    Src.f_SRPKeyExchange_processClientKeyExchange = [.srpCheck 0] ∧
+    Src.f_SRPKeyExchange_processServerKeyExchange = [.srpCheck 0] ∧
+    Src.f_verify_binder = [.binderCompare 1] ∧
+    Src.f_tls12_verify_SKE = [.schemeCheck 10001, .sigVerify 1000] ∧
+    Src.f_tls12_verify_ecdsa_SKE = [.sigVerify 1000] ∧ Src.f_tls12_verify_eddsa_ske = [.sigVerify 1000] ∧
+    Src.f_tls12_verify_dsa_SKE = [.sigVerify 1000] ∧ Src.f_verifyServerKeyExchange = [.sigVerify 1000] ∧
+    Src.f_DelegatedCredential_verify = [.schemeCheck 10001, .schemeCheck 10001, .sigVerify 1000] := by
+  decide
+
+/-- **No `verify` / `hashAndVerify` result is ignored**: every call site in tlsconnection.py,
+    tlsrecordlayer.py, keyexchange.py and x509.py (also through `x = key.verify` aliases) sits in
+    `if not …:` whose body sends an alert or raises, or is returned to the caller; and the sites that
+    check the PEER's proof do what the model says (`sigVerify 51` / `sigVerify 1000` above). -/
+theorem gen_verify_result_never_ignored :
+    (Src.verifySites.all fun s => s.2 != 0) = true ∧ Src.verifySites.length ≥ 10 := by
+  decide
+
+/-- **`Checker.__call__` has the decision structure of `checkerSkips` / `checkerOk`**: the only
+    way past it without raising is `not checkResumedSession and connection.resumed`; the client
+    looks at `session.serverCertChain`, the server at `session.clientCertChain`; the comparison is
+    `chain.getFingerprint() != x509Fingerprint` with `getFingerprint` = fingerprint of `x509List[0]`
+    (the end-entity certificate); a missing chain raises. -/
+theorem gen_checker_structure_matches_model :
+    Src.checkerShape = Src.modelCheckerShape ∧
+    (∀ cr resumed, checkerSkips cr resumed = (!cr && resumed)) ∧
+    (∀ certFp fp sess c rest, sess.serverCertChain = c :: rest →
+      (checkerOk certFp fp true sess = true ↔ certFp c = fp)) := by
+  refine ⟨by decide, fun _ _ => rfl, ?_⟩
+  intro certFp fp sess c rest h
+  simp [checkerOk, h]
+
+/-- **The checker runs before any session ticket is handed out** (regression of d4beb6f): in both
+    functions that send tickets (`_serverTLS13Handshake`, `_sendFinished`) a checker call precedes
+    `_serverSendTickets`; no other analysed function sends tickets; `_check_before_tickets` sets
+    `self.resumed` before calling the checker (so the skip policy sees the right flag); the TLS 1.3
+    server has recorded the session before; the wrapper still runs the checker for ticket-less
+    handshakes. -/
+theorem gen_checker_runs_before_tickets :
+    Src.ticketsAfterChecker Src.f_serverTLS13Handshake false = true ∧ Src.hasTicketSend Src.f_serverTLS13Handshake = true ∧
+    Src.subseq [.record 6, .checkerCall 0, .ticketSend 0] Src.f_serverTLS13Handshake = true ∧
+    Src.f_sendFinished = [.checkerCall 0, .ticketSend 0] ∧
+    Src.f_check_before_tickets = [.setResumed 0, .checkerCall 0] ∧
+    Src.f_handshakeWrapperAsync = [.checkerCall 0] ∧
+    ((Src.allFunctions.filter Src.hasTicketSend).length = 2) := by
+  decide
 
 /-! ### identity ⇒ proof of possession in THIS handshake -/
 
